@@ -1062,6 +1062,19 @@ private:
     // UnboundedNoMaxLimit does not block or drop messages
     for (ThreadContext* thread_context : _active_thread_contexts_cache)
     {
+      _check_failure_counter(thread_context, error_notifier);
+    }
+  }
+
+  /**
+   * Check for dropped messages of a single thread context - only when bounded queue is used
+   * @param thread_context thread context
+   * @param error_notifier error notifier
+   */
+  QUILL_ATTRIBUTE_HOT static void _check_failure_counter(ThreadContext* thread_context,
+                                                         std::function<void(std::string const&)> const& error_notifier) noexcept
+  {
+    {
       if (thread_context->has_bounded_queue_type())
       {
         size_t const failed_messages_cnt = thread_context->get_and_reset_failure_counter();
@@ -1411,6 +1424,10 @@ private:
 
     while (QUILL_UNLIKELY(found_invalid_and_empty_thread_context != std::end(_active_thread_contexts_cache)))
     {
+      // The dropped messages counter is lost together with the thread context, report it first.
+      // The thread can have dropped messages and exited after the last periodic check
+      _check_failure_counter(*found_invalid_and_empty_thread_context, _options.error_notifier);
+
       // if we found anything then remove it - Here if we have more than one to remove we will
       // try to acquire the lock multiple times, but it should be fine as it is unlikely to have
       // that many to remove
